@@ -12,7 +12,7 @@
     renamed or extra locals, equivalent comparisons) still check; any
     behavioural change fails. *)
 From Coq Require Import ZArith List Bool Lia ZifyBool.
-From AV Require Import Tok.Model.
+From AV Require Import Base.PyList Tok.Model.
 Import ListNotations.
 Open Scope Z_scope.
 
@@ -34,6 +34,16 @@ Ltac unify_Z :=
       end
   end.
 
+(* the same for the bounds of slices of one list *)
+Ltac unify_zslice :=
+  repeat match goal with
+  | |- context [zslice ?l ?a ?u] =>
+      match goal with
+      | |- context [zslice l a ?v] =>
+          tryif constr_eq u v then fail else (replace v with u by lia)
+      end
+  end.
+
 Ltac split_rest :=
   repeat match goal with
   | |- context [if ?b then _ else _] =>
@@ -51,11 +61,11 @@ Ltac keep_Z_tests :=
   repeat match goal with
   | H : ?b = _ |- _ =>
       lazymatch b with
-      | (_ <? _) => fail
-      | (_ <=? _) => fail
-      | (_ =? _) => fail
-      | (_ >? _) => fail
-      | (_ >=? _) => fail
+      | context [_ <? _] => fail
+      | context [_ <=? _] => fail
+      | context [_ =? _] => fail
+      | context [_ >? _] => fail
+      | context [_ >=? _] => fail
       | _ => clear H
       end
   end.
@@ -81,6 +91,9 @@ Ltac innermost t k :=
   | (match ?c with [] => _ | _ :: _ => _ end) => innermost c k
   | (let '(_, _) := ?c in _) => innermost c k
   | (match ?c with Ok _ => _ | Err _ => _ end) => innermost c k
+  | negb ?c => innermost c k
+  | (?a && _) => innermost a k
+  | (?a || _) => innermost a k
   | _ => k t
   end.
 
@@ -96,3 +109,11 @@ Ltac split_head t :=
 Ltac step_lhs := lazymatch goal with |- ?l = _ => split_head l end.
 Ltac step_rhs := lazymatch goal with |- _ = ?r => split_head r end.
 Ltac walk := repeat step_lhs; repeat step_rhs; close_leaf.
+
+(** equality of two boolean expressions over the same atoms: decide every atom *)
+Ltac walk_bool :=
+  repeat match goal with
+  | |- context [?x =? ?y] => let E := fresh "E" in destruct (x =? y) eqn:E
+  | |- context [?x <? ?y] => let E := fresh "E" in destruct (x <? y) eqn:E
+  | |- context [?x <=? ?y] => let E := fresh "E" in destruct (x <=? y) eqn:E
+  end; cbn [negb andb orb]; try reflexivity; try (exfalso; lia).
